@@ -9,6 +9,7 @@ For every private-selection primitive (found as the function feeding `choice(n, 
   stable              the probabilities are softmax(.) or exp of a shift-normalised quantity (E3): well defined for huge scores
   key-aligned         in dict mode the base-measure vector is built by the same key list as the quality vector
   sensitivity-flag    mwem+pgm's selection uses sensitivity 2 under bounded adjacency, 1 otherwise
+  candidate-set       MST.select offers exactly the pairs not yet connected, in every round
   noiseless-limit     a branch of its own for epsilon == inf draws uniformly from the candidates of maximal quality
   forwards-eps        generalized_exponential_mechanism hands its epsilon on unchanged with sensitivity 1
 Noise helpers:
@@ -19,6 +20,7 @@ Noise helpers:
 Not decided: the numpy / scipy samplers themselves (trusted).
 """
 import ast
+import re
 import itertools
 
 from . import _logrules as LR
@@ -185,6 +187,7 @@ def run(ctx):
     check_pareto(ctx)
     for spec in PRIMS:
         check_noiseless_limit(ctx, repo.func(spec['rel'], spec['q']), spec)
+    check_mst_candidates(ctx)
 
 
 # positional parameters of the selection / noise primitives as callers know them: (name, default or None)
@@ -235,6 +238,48 @@ def check_signatures(ctx):
                '%s: positional callers bind (%s); %s' % (q, ', '.join(p for p, _ in want), '; '.join(bad) or 'positions and defaults kept'),
                construct='signature of ' + q)
     ctx.counters['signatures'] = n
+
+
+def check_mst_candidates(ctx):
+    """MST.select offers the exponential mechanism, in every round, exactly the attribute pairs that are NOT YET CONNECTED in the tree grown so far.
+    Recognised: the candidate list re-filtered with the union-find before every selection; or filtered once before the loop and, after every
+    accepted edge, reduced by the pairs that lie INSIDE the component just formed (or re-filtered in full).  Reported: a reduction that only looks
+    at pairs touching the two endpoints of the new edge - a pair joining two OTHER members of the merged components stays a candidate."""
+    if not ctx.repo.has_func(MST, 'select'):
+        raise AnalysisError('anchor vanished: mst.select')
+    fi = ctx.repo.func(MST, 'select')
+    ctx.analysed(fi)
+    loops = [l for l in ast.walk(fi.node) if isinstance(l, (ast.For, ast.While)) and any(isinstance(c, ast.Call) and U(c.func).split('.')[-1] == 'exponential_mechanism'
+                                                                                           for c in ast.walk(l))]
+    if len(loops) != 1:
+        raise AnalysisError('mst.select: the selection loop was not found')
+    lp = loops[0]
+    em_stmt = next(i for i, st in enumerate(lp.body) if any(isinstance(c, ast.Call) and U(c.func).split('.')[-1] == 'exponential_mechanism' for c in ast.walk(st)))
+    FULL = re.compile(r'\[(\w+)for\1in(\w+)ifnot(\w+)\.connected\(\*\1\)\]')
+
+    def filt(st):
+        return isinstance(st, ast.Assign) and len(st.targets) == 1 and isinstance(st.targets[0], ast.Name) and isinstance(st.value, ast.ListComp)
+    before = [st for st in lp.body[:em_stmt] if filt(st) and FULL.fullmatch(U(st.value).replace(' ', ''))]
+    if before:
+        ctx.ob('candidate-set', fi, before[0], True, 'the candidates are re-filtered with the union-find before every selection')
+        return
+    pre = [st for st in fi.body if filt(st) and FULL.fullmatch(U(st.value).replace(' ', '')) and st.lineno < lp.lineno]
+    after = [st for st in lp.body[em_stmt + 1:] if filt(st)]
+    if not pre or len(after) != 1:
+        raise AnalysisError('mst.select: how the candidate pairs are kept up to date is in no recognised form')
+    t = U(after[0].value).replace(' ', '')
+    comp = {a.targets[0].id for a in lp.body if isinstance(a, ast.Assign) and len(a.targets) == 1 and isinstance(a.targets[0], ast.Name)
+            and isinstance(a.value, ast.Call) and U(a.value.func).split('.')[-1] == 'node_connected_component'}
+    inside = any(re.fullmatch(r'\[(\w+)for\1in\w+ifnot\(\1\[0\]in%s and\1\[1\]in%s\)\]'.replace(' ', '') % (m, m), t) or
+                 re.fullmatch(r'\[(\w+)for\1in\w+if\1\[0\]notin%sor\1\[1\]notin%s\]' % (m, m), t) for m in comp)
+    full = FULL.fullmatch(t) is not None
+    touching = re.search(r'\(\w+in\w+or\w+in\w+\)and\w+\.connected\(', t) is not None
+    if not (inside or full or touching):
+        raise AnalysisError('mst.select: the candidates are reduced by `%s`, which is in no recognised form' % U(after[0].value)[:80])
+    ctx.ob('candidate-set', fi, after[0], inside or full,
+           'after an edge is accepted every pair that has become connected leaves the candidate list%s' % ('' if inside or full else
+           '; the source only drops pairs TOUCHING the new edge\'s endpoints: when two components of several attributes are merged, a pair of their other '
+           'members stays a candidate, keeps probability mass and can be selected (a cycle)'), construct='candidate pairs after a merge')
 
 
 def check_noiseless_limit(ctx, fi, spec):
